@@ -72,6 +72,32 @@ def replay_case(prop, path, timeout=600):
     return rep, sig, text
 
 
+def run_w2(prop, w2, agg):
+    """run repository tests with vf.pytest_plugin loaded; merge its records into agg"""
+    import glob
+    import tempfile
+
+    tmp = tempfile.mkdtemp(prefix="vf_w2_")
+    out = os.path.join(tmp, "w2.jsonl")
+    env = common.worker_env({"VF_W2_OUT": out, "VF_W2_MONITORS": ",".join(w2.get("monitors", [prop]))})
+    cmd = [common.PY, "-m", "pytest", "-q", "-p", "no:cacheprovider", "-p", "vf.pytest_plugin", "-n", str(w2.get("n", common.NCPU)), "--timeout=600"] + list(w2["tests"])
+    try:
+        subprocess.run(cmd, cwd=str(common.REPO), env=env, capture_output=True, text=True, timeout=w2.get("timeout", 1500))
+    except subprocess.TimeoutExpired:
+        agg.inconc["w2_watchdog"] += 1
+    n = 0
+    for f in glob.glob(out + ".*"):
+        before = agg.shards_done + agg.shards_failed
+        agg.read(f)
+        n += 1
+    # W2 files are not shards of the generated workload
+    agg.shards_done -= min(agg.shards_done, n)
+    agg.stats["w2.files"] += n
+    import shutil
+
+    shutil.rmtree(tmp, ignore_errors=True)
+
+
 def write_replay(prop, viol):
     d = common.REPLAYS / prop
     d.mkdir(parents=True, exist_ok=True)
@@ -131,6 +157,12 @@ def run_property(prop, tier, seed):
         plan.get("hard_timeout_s", 3600),
         plan.get("max_par"),
     )
+
+    # 2b. W2: the repository's own tests under the hooks (optional per driver)
+    if hasattr(mod, "w2"):
+        w2 = mod.w2(tier)
+        if w2:
+            run_w2(prop, w2, agg)
 
     # 3. classify violations
     matched = {}
